@@ -3,6 +3,7 @@ package harness
 import (
 	"bytes"
 	"fmt"
+	"github.com/quickfixgo/quickfix"
 	"time"
 
 	"verifsim/wire"
@@ -147,6 +148,43 @@ func runC07(env *Env, tier string) {
 			} else {
 				p.OutSeq = before.T
 			}
+			if ch.Chance("apprefuseslogon", 1, 7) {
+				// The application refuses this Logon (FromAdmin returns RejectLogon): the engine answers with a
+				// Logout and ends the connection. Nothing was agreed, so nothing may be reset - whatever the
+				// Logon carried and whatever is configured.
+				s.E.App.RejectFromAdmin = func(ac AppCall) quickfix.MessageRejectError {
+					if ac.Type == "A" {
+						return quickfix.RejectLogon{Text: "refused by the application"}
+					}
+					return nil
+				}
+				env.Note("round %d: peer Logon 34=%d 141=%v, refused by the application", round, p.OutSeq, peerFlag)
+				p.Send("A", p.LogonBody(c.HeartBtInt, peerFlag), MsgOpt{})
+				s.E.App.RejectFromAdmin = nil
+				env.Stat("probe_logon_refused_by_application")
+				post := c07Take(s)
+				if c.ResetOnDisconnect {
+					// the connection ended: that reset is configured
+					if post.S != 1 || post.T != 1 {
+						env.Violate("C07/reset-on-disconnect", "ResetOnDisconnect: counters after the refused Logon's disconnect are S=%d T=%d, want 1/1", post.S, post.T)
+						break
+					}
+				} else if n := resetCalls(s, mark); n != 0 {
+					env.Violate("C07/unagreed-reset", "store Reset called %d times for a Logon (141=%v, ResetOnLogon=%v) that the application refused", n, peerFlag, c.ResetOnLogon)
+					break
+				} else if post.S < before.S || post.S > before.S+1 || post.T < before.T || post.T > before.T+1 || len(post.msgs) < len(before.msgs) {
+					env.Violate("C07/continuity", "a refused Logon moved the counters from S=%d T=%d to S=%d T=%d, stored messages %d -> %d", before.S, before.T, post.S, post.T, len(before.msgs), len(post.msgs))
+					break
+				}
+				if p.Connected() {
+					p.Drop()
+				}
+				carried = c07Take(s)
+				carriedMark = env.EventN()
+				p.EP = nil
+				env.Advance(500 * time.Millisecond)
+				continue
+			}
 			env.Note("round %d: peer Logon 34=%d 141=%v", round, p.OutSeq, peerFlag)
 			r := p.Send("A", p.LogonBody(c.HeartBtInt, peerFlag), MsgOpt{})
 			engLogon, ok = LastOfType(r, "A")
@@ -283,8 +321,22 @@ func runC07(env *Env, tier string) {
 				inSeq = false
 			}
 			env.Note("round %d: peer logout 34=%d (expected %d)", round, map[bool]int{true: p.OutSeq, false: lo.Seq}[lo.Seq == 0], pre.T)
+			// In a share of the logouts the store refuses the write of the engine's Logout reply (disk
+			// full, database gone): the reply cannot be sent, the agreed resets must happen all the same.
+			refused := false
+			if ch.Chance("storerefuseslogoutreply", 1, 6) {
+				s.E.SF.Fail = func(op string, n int) error {
+					if refused {
+						return nil
+					}
+					refused = true
+					env.Stat("fault_store_write_refused")
+					return fmt.Errorf("injected: store refuses %s %d", op, n)
+				}
+			}
 			r := p.Send("5", nil, lo)
-			if _, ok := LastOfType(r, "5"); !ok {
+			s.E.SF.Fail = nil
+			if _, ok := LastOfType(r, "5"); !ok && !refused {
 				env.Violate("C07/no-logout-reply", "peer Logout in sequence got no Logout reply: %s", summarize(r))
 				break
 			}
@@ -303,7 +355,13 @@ func runC07(env *Env, tier string) {
 				if !inSeq {
 					wantT = pre.T // a Logout that is not the expected number is answered but not consumed
 				}
-				if post.S != pre.S+1 || post.T != wantT {
+				if refused {
+					// The reply could not be persisted. Whether its number and the Logout's number count as
+					// used is not something the statement settles; the counters must not move otherwise.
+					if post.S < pre.S || post.S > pre.S+1 || post.T < pre.T || post.T > pre.T+1 {
+						env.Violate("C07/continuity", "logout exchange (reply refused by the store) without reset option moved counters from S=%d T=%d to S=%d T=%d", pre.S, pre.T, post.S, post.T)
+					}
+				} else if post.S != pre.S+1 || post.T != wantT {
 					env.Violate("C07/continuity", "logout exchange without reset option moved counters from S=%d T=%d to S=%d T=%d, want S+1 and T=%d", pre.S, pre.T, post.S, post.T, wantT)
 				}
 				if n := resetCalls(s, mark); n != 0 {
